@@ -10,6 +10,8 @@ let show_list l = "[" ^ String.concat "," (List.map string_of_coqz l) ^ "]"
 let show (f : 'a -> string) (o : 'a outcome) = match o with
   | Ok a -> "ok " ^ f a | Err _ -> "err" | Panic -> "panic" | OutOfFuel -> "fuel"
 
+let show_sliced s = (match s with SStream _ -> "S " | SList _ -> "L ") ^ show_list (sliced_elems s)
+
 let () = serve (fun line ->
   match split_ws line with
   | op :: len :: args ->
@@ -25,5 +27,21 @@ let () = serve (fun line ->
      | "set", [i] -> show show_list (set_index_list xs (idx_of i) (coqz_of_string "-1"))
      | "rm", [i] -> show (fun (a, l) -> string_of_coqz a ^ " " ^ show_list l) (remove_index_list xs (idx_of i))
      | "rmslice", [a; b] -> show (fun (m, l) -> show_list m ^ " " ^ show_list l) (remove_slice_list xs (oidx_of a) (oidx_of b))
+     | "tail", [] -> show show_list (tail_list xs)
+     | "butlast", [] -> show show_list (butlast_list xs)
+     | "take", [i] -> show show_list (take_list xs (idx_of i))
+     | "drop", [i] -> show show_list (drop_list xs (idx_of i))
+     | "stail", [] -> show show_sliced (tail_stream xs)
+     | "sbutlast", [] -> show show_sliced (butlast_stream xs)
+     | "stake", [i] -> show show_sliced (take_stream xs (idx_of i))
+     | "sdrop", [i] -> show show_sliced (drop_stream xs (idx_of i))
+     | "uncons", [] -> show (fun (a, l) -> string_of_coqz a ^ " " ^ show_list l) (uncons_builtin xs)
+     | "unsnoc", [] -> show (fun (l, a) -> show_list l ^ " " ^ string_of_coqz a) (unsnoc_builtin xs)
+     | "suncons", [] -> show (fun (a, l) -> string_of_coqz a ^ " " ^ show_list l) (uncons_stream xs)
+     | "sunsnoc", [] -> show (fun (l, a) -> show_list l ^ " " ^ string_of_coqz a) (unsnoc_stream xs)
+     | "unconsq", [] -> show (function None -> "null" | Some (a, l) -> string_of_coqz a ^ " " ^ show_list l) (uncons_q xs)
+     | "unsnocq", [] -> show (function None -> "null" | Some (l, a) -> show_list l ^ " " ^ string_of_coqz a) (unsnoc_q xs)
+     | "only", [] -> show string_of_coqz (only_list xs)
+     | "sonly", [] -> show string_of_coqz (only_stream xs)
      | _ -> "badcase")
   | _ -> "badcase")
